@@ -28,6 +28,10 @@ type c27store struct {
 func (s *c27store) Close() error {
 	s.closes++
 	s.p.closeCalls++
+	if s.p.failCloseNext {
+		s.p.failCloseNext = false
+		return errors.New("injected: underlying Close reports an I/O error")
+	}
 	if s.closes > 1 {
 		return errors.New("underlying store closed twice")
 	}
@@ -37,6 +41,7 @@ func (s *c27store) Drop() { s.drops++; s.p.dropCalls++ }
 
 type c27producer struct {
 	failNext                     bool // fault injection: the next underlying OpenDB returns an error
+	failCloseNext                bool // fault injection: the next underlying Close returns an error (it still counts as the close)
 	failedOpens                  int
 	opens, closeCalls, dropCalls int
 	stores                       []*c27store
@@ -60,7 +65,7 @@ func (p *c27producer) Initialize(n []string, f []byte) ([]byte, error) { return 
 func (p *c27producer) Close() error                                    { return nil }
 
 func runC27(c *ev.Ctx) {
-	c.Rule = "random sequences of 40 open/close/drop operations over 3 names on cachedproducer.Wrap and cachedproducer.WrapAll over a counting producer whose OpenDB is made to fail for one in five first opens (the error must come through and leave the count untouched); model = per-name reference count and a 'drop allowed since the last open' flag. " +
+	c.Rule = "random sequences of 40 open/close/drop operations over 3 names on cachedproducer.Wrap and cachedproducer.WrapAll over a counting producer whose OpenDB is made to fail for one in five first opens (the error must come through and leave the count untouched) and whose Close is made to fail for one in five last closes (the error comes through, the store counts as closed); model = per-name reference count and a 'drop allowed since the last open' flag. " +
 		"Oracle after every operation: a re-open while open returns the identical store and does not reach the underlying producer; the underlying Close runs exactly when the count returns to zero and never otherwise; a Close with count zero returns an error; the underlying Drop runs at most once between two opens. " +
 		"Plus overlapping drops: the underlying Drop of the harness store blocks on a gate; while the first Drop is inside it, 1-3 further Drop calls are started (same or another handle); after the gate opens the underlying Drop must have run exactly once. " +
 		"non-trivial = distinct sequences in which a name was opened >=3 times concurrently, fully closed, closed once more (error expected), re-opened, and dropped twice"
@@ -156,7 +161,14 @@ func runC27(c *ev.Ctx) {
 				if last[nm] == nil {
 					continue
 				}
-				log = append(log, "close "+nm)
+				injectedCloseErr := false
+				if ref[nm] == 1 && r.Intn(5) == 0 {
+					// the underlying Close of this last close reports an error: it is passed on, and the store is closed all the same
+					under.failCloseNext, injectedCloseErr = true, true
+					log = append(log, "close "+nm+" (underlying Close fails)")
+				} else {
+					log = append(log, "close "+nm)
+				}
 				var err error
 				if p, _ := ev.Try(func() { err = last[nm].Close() }); p != nil {
 					fail("close-panics", fmt.Sprint(p))
@@ -173,7 +185,12 @@ func runC27(c *ev.Ctx) {
 						return
 					}
 				} else {
-					if err != nil {
+					if injectedCloseErr {
+						if err == nil {
+							fail("failed-underlying-close-not-reported", nm)
+							return
+						}
+					} else if err != nil {
 						fail("close-fails", err.Error())
 						return
 					}
